@@ -1039,3 +1039,50 @@ func (g *genCtx) tmplSoftMix() {
 	}
 	g.addOp(Op{Kind: OpInvoke, Scope: s, Fn: inv.ID, Tag: "soft-mix"})
 }
+
+// tmplSliceMembers: a value group whose members are themselves slices
+// ([]*K, some of them empty or nil), fed by plain and flatten results
+// (option or tag) from several scopes, requested, fed once more, requested
+// again.
+func (g *genCtx) tmplSliceMembers() {
+	if len(g.ft.Groups) == 0 {
+		return
+	}
+	grp := g.group()
+	t := TSlice + g.r.Intn(g.ft.NT)
+	s := g.pickScope()
+	path := g.m.Path(s)
+	feeder := func() {
+		fs := path[g.r.Intn(len(path))]
+		f := g.newFunc(RoleCtor)
+		flatten := g.ft.Flatten && g.r.P(0.35)
+		if g.r.P(0.5) {
+			f.Results = []Result{{Kind: RSingle, T: t}}
+			f.OptGroup, f.OptFlatten = grp, flatten
+		} else {
+			f.Results = []Result{{Kind: RObj, Fields: []Result{{Kind: RGroup, T: t, Group: grp, Flatten: flatten}}}}
+		}
+		f.HasErr = g.r.P(0.5)
+		if g.ft.Export && fs != 0 && g.r.P(0.2) {
+			f.Export = true
+		}
+		i := g.addOp(Op{Kind: OpProvide, Scope: fs, Fn: f.ID, Tag: "slice-members"})
+		if g.m.PredictProvide(fs, f) == PredOK {
+			g.m.AddCtor(fs, i, f)
+		}
+	}
+	request := func() {
+		sub := g.m.Subtree(s)
+		inv := g.newFunc(RoleInv)
+		inv.Params = []Param{{Kind: PObj, Fields: []Param{{Kind: PGroup, T: t, Group: grp}}}}
+		g.addOp(Op{Kind: OpInvoke, Scope: sub[g.r.Intn(len(sub))], Fn: inv.ID, Tag: "slice-members"})
+	}
+	for n := g.r.Range(1, 4); n > 0; n-- {
+		feeder()
+	}
+	request()
+	if g.r.P(0.6) {
+		feeder()
+		request()
+	}
+}
